@@ -29,6 +29,14 @@ type Opts struct {
 	MaxFields     int
 	NoSharedAddr  bool // stay out of F-SKIPCOPY-INTERIOR-PTR
 	DefectKinds   []string
+	Custom        bool // extend functions and map ... | FUNC
+	Fallible      bool // custom functions may return errors (every declared method then returns error)
+	Contexts      int  // maximal number of context parameters
+	ConvArg       bool // custom functions may take the converter as first argument
+	UseUnderlying bool // may use useUnderlyingTypeMethods
+	AlwaysErr     bool // every declared method returns error
+	ErrMismatch   bool // inject one fallible function although no method returns error
+	FallibleRate  int  // percent of custom functions that can fail (default 50)
 }
 
 // Builder accumulates one program.
@@ -49,6 +57,23 @@ type Builder struct {
 	Labels   map[string]int
 	topLevel bool
 	defectKind string
+
+	Ctx       []CtxParam
+	ctxRegex  bool
+	Funcs     []string // names of the custom functions (driver registry)
+	extPairs  []namedPair
+	fnN       int
+	AllErr    bool
+	extendDoc []string
+
+	errMismatchDone bool
+	aImportsMark    bool
+}
+
+// CtxParam is one context parameter every declared method carries.
+type CtxParam struct {
+	Name string
+	T    *spec.T
 }
 
 type openPair struct{ s, t *spec.T }
@@ -86,6 +111,34 @@ func New(rt *rapid.T, o Opts) *Builder {
 	b.Conv = &model.Conv{Prog: b.Prog, ConvPkg: "conv", OutPkg: "conv/generated"}
 	if o.SkipCopy {
 		b.Conv.Settings.SkipCopy = true
+	}
+	if o.Custom {
+		b.AllErr = o.AlwaysErr || (o.Fallible && b.coin("all-methods-return-error"))
+		if o.ErrMismatch {
+			b.AllErr = false
+		}
+		nctx := 0
+		if o.Contexts > 0 {
+			nctx = b.draw(o.Contexts+1, "nctx")
+		}
+		b.ctxRegex = nctx > 0 && b.coin("ctx-by-regex")
+		shapes := []string{"ptr", "value", "basic"}
+		for i := 0; i < nctx; i++ {
+			name := fmt.Sprintf("Ctx%c", 'A'+i)
+			var ct *spec.T
+			switch shapes[(i+b.draw(3, "ctx-shape"))%3] {
+			case "ptr":
+				b.C.Types = append(b.C.Types, &spec.TypeDecl{Name: name, U: spec.Struct(spec.F("V", spec.Basic("int")), spec.F("S", spec.Basic("string")))})
+				ct = spec.Ptr(spec.Named(b.C.Key, name))
+			case "value":
+				b.C.Types = append(b.C.Types, &spec.TypeDecl{Name: name, U: spec.Struct(spec.F("V", spec.Basic("int")))})
+				ct = spec.Named(b.C.Key, name)
+			default:
+				b.C.Types = append(b.C.Types, &spec.TypeDecl{Name: name, U: spec.Basic("string")})
+				ct = spec.Named(b.C.Key, name)
+			}
+			b.Ctx = append(b.Ctx, CtxParam{Name: fmt.Sprintf("ctx%c", 'A'+i), T: ct})
+		}
 	}
 	if o.SamePkg {
 		b.Conv.OutPkg = "conv"
@@ -204,6 +257,15 @@ func (b *Builder) Pair(depth int) (*spec.T, *spec.T) {
 	if b.O.Exotic {
 		choices = append(choices, choice{"exotic", 5})
 	}
+	if b.O.Custom {
+		choices = append(choices, choice{"extend", 10})
+		if len(b.extPairs) > 0 {
+			choices = append(choices, choice{"extend-reuse", 8})
+		}
+		if b.O.UseUnderlying {
+			choices = append(choices, choice{"under", 4})
+		}
+	}
 	total := 0
 	for _, c := range choices {
 		total += c.w
@@ -280,6 +342,13 @@ func (b *Builder) Pair(depth int) (*spec.T, *spec.T) {
 		return np.s, np.t
 	case "enum":
 		return b.enumPair()
+	case "extend":
+		return b.extendPair(depth)
+	case "extend-reuse":
+		np := b.extPairs[b.draw(len(b.extPairs), "extend-reuse-idx")]
+		return np.s, np.t
+	case "under":
+		return b.underPair()
 	case "same":
 		b.Conv.Settings.SkipCopy = true
 		return b.sameType(depth)
@@ -444,9 +513,145 @@ func (b *Builder) namedStruct(depth int) (*spec.T, *spec.T) {
 func (b *Builder) declare(name string, s, t *spec.T) (*model.Method, *spec.Method) {
 	m := &model.Method{Name: name, Source: s, Target: t, Fields: map[string]*model.FieldCfg{}}
 	sm := &spec.Method{Name: name, Params: []spec.Param{{Name: "source", T: s}}, Results: []*spec.T{t}}
+	// context parameters at random positions
+	for _, c := range b.Ctx {
+		pos := b.draw(len(sm.Params)+1, "ctx-pos")
+		ps := append([]spec.Param{}, sm.Params[:pos]...)
+		ps = append(ps, spec.Param{Name: c.Name, T: c.T})
+		sm.Params = append(ps, sm.Params[pos:]...)
+		m.Contexts = append(m.Contexts, c.T)
+		if !b.ctxRegex {
+			sm.Doc = append(sm.Doc, "context "+c.Name)
+		}
+	}
+	if b.AllErr {
+		m.Err = true
+		sm.Results = append(sm.Results, spec.Named("", "error"))
+	}
 	b.Conv.Methods = append(b.Conv.Methods, m)
 	b.SC.Methods = append(b.SC.Methods, sm)
 	return m, sm
+}
+
+// newFunc declares a custom function S -> T in the converter package. Its result is
+// a deterministic mark of all its inputs. withSource=false: no source parameter.
+func (b *Builder) newFunc(s, t *spec.T, withSource bool) *model.Func {
+	b.fnN++
+	if b.fnN == 1 {
+		b.C.Imports = append(b.C.Imports, b.Prog.Module+"/mark")
+	}
+	name := fmt.Sprintf("Fn%d", b.fnN)
+	f := &model.Func{Name: name, Target: t}
+	fd := &spec.FuncDecl{Name: name, Results: []*spec.T{t}}
+	args := []string{}
+	if b.O.ConvArg && b.chance(25, "conv-arg") {
+		fd.Params = append(fd.Params, spec.Param{Name: "c", T: spec.Named(b.C.Key, "Converter")})
+		args = append(args, "c != nil")
+		b.label("func:converter-arg")
+	}
+	if withSource {
+		f.Source = s
+		fd.Params = append(fd.Params, spec.Param{Name: "source", T: s})
+		args = append(args, "source")
+	}
+	for _, c := range b.Ctx {
+		if !b.coin("func-needs-ctx") {
+			continue
+		}
+		pos := len(fd.Params)
+		if b.coin("ctx-before-source") && len(fd.Params) > 0 && fd.Params[0].Name != "c" {
+			pos = 0
+		}
+		ps := append([]spec.Param{}, fd.Params[:pos]...)
+		ps = append(ps, spec.Param{Name: c.Name, T: c.T})
+		fd.Params = append(ps, fd.Params[pos:]...)
+		f.Contexts = append(f.Contexts, c.T)
+		args = append(args, c.Name)
+		if !b.ctxRegex {
+			fd.Doc = append(fd.Doc, " goverter:context "+c.Name)
+		}
+		b.label("func:context")
+	}
+	tx, _ := b.Prog.TypeExpr(b.C.Key, t)
+	_ = tx
+	argList := strings.Join(args, ", ")
+	body := fmt.Sprintf("\treturn mark.Make[%s](%q, %s)", "RESULT", name, argList)
+	rate := b.O.FallibleRate
+	if rate == 0 {
+		rate = 50
+	}
+	mismatch := b.O.ErrMismatch && !b.errMismatchDone && b.chance(50, "err-mismatch")
+	if mismatch {
+		b.errMismatchDone = true
+		b.label("defect:error-result-missing")
+	}
+	if (b.AllErr && b.chance(rate, "func-fallible")) || mismatch {
+		f.Err = true
+		fd.Results = append(fd.Results, spec.Named("", "error"))
+		body = fmt.Sprintf("\tif err := mark.Fail(%q, %s); err != nil {\n\t\tvar zero RESULT\n\t\treturn zero, err\n\t}\n\treturn mark.Make[RESULT](%q, %s), nil", name, argList, name, argList)
+		b.label("func:fallible")
+	}
+	if len(args) == 0 {
+		body = strings.ReplaceAll(body, ", )", ")")
+	}
+	fd.Body = body
+	fd.ResultInBody = true
+	b.C.Funcs = append(b.C.Funcs, fd)
+	b.Funcs = append(b.Funcs, name)
+	return f
+}
+
+// extendPair creates a pair that is converted by an extend function.
+func (b *Builder) extendPair(depth int) (*spec.T, *spec.T) {
+	var s, t *spec.T
+	if b.coin("extend-independent") {
+		// unrelated types: only the function can convert them
+		s, _ = b.Pair(min(depth, 1))
+		_, t = b.Pair(min(depth, 1))
+		b.label("extend:independent")
+	} else {
+		s, t = b.Pair(min(depth, 2))
+		b.label("extend:convertible")
+	}
+	for _, ep := range b.extPairs {
+		if ep.s.Key_() == s.Key_() && ep.t.Key_() == t.Key_() {
+			// several functions for one signature: precedence is not documented
+			return s, t
+		}
+	}
+	f := b.newFunc(s, t, true)
+	b.Conv.Extends = append(b.Conv.Extends, f)
+	b.extendDoc = append(b.extendDoc, "extend "+f.Name)
+	b.extPairs = append(b.extPairs, namedPair{s, t})
+	return s, t
+}
+
+// underPair: named basics converted by an extend function over their underlying types.
+func (b *Builder) underPair() (*spec.T, *spec.T) {
+	ks := []string{"int", "string", "int64", "bool"}
+	k1, k2 := ks[b.draw(len(ks), "under-k1")], ks[b.draw(len(ks), "under-k2")]
+	su, tu := spec.Basic(k1), spec.Basic(k2)
+	for _, ep := range b.extPairs {
+		if ep.s.Key_() == su.Key_() && ep.t.Key_() == tu.Key_() {
+			return b.leafBasic()
+		}
+	}
+	f := b.newFunc(su, tu, true)
+	b.Conv.Extends = append(b.Conv.Extends, f)
+	b.extendDoc = append(b.extendDoc, "extend "+f.Name)
+	b.Conv.Settings.UseUnderlying = true
+	b.extPairs = append(b.extPairs, namedPair{su, tu})
+	s, t := su, tu
+	switch b.draw(3, "under-which") {
+	case 0:
+		s = b.namedBasic(b.A, "U", su)
+	case 1:
+		t = b.namedBasic(b.B, "V", tu)
+	default:
+		s, t = b.namedBasic(b.A, "U", su), b.namedBasic(b.B, "V", tu)
+	}
+	b.label("extend:underlying")
+	return s, t
 }
 
 // finishMethod renders the field settings of m into directive lines.
@@ -505,6 +710,9 @@ func (b *Builder) fields(depth int, own *model.Method, sd *spec.TypeDecl) ([]spe
 		variants := []string{"plain", "plain", "plain", "srconly"}
 		if own != nil {
 			variants = append(variants, "rename", "recase", "nest", "extra-ignore", "extra-missing", "dot", "automap", "recase-exact")
+			if b.O.Custom {
+				variants = append(variants, "mapfunc", "mapfunc", "mapfunc-nosource")
+			}
 			for _, k := range []string{"ambiguous-case", "unknown-field", "ambiguous-automap"} {
 				if b.want(k) {
 					variants = append(variants, k, k, k)
@@ -545,6 +753,20 @@ func (b *Builder) fields(depth int, own *model.Method, sd *spec.TypeDecl) ([]spe
 			ft = append(ft, spec.F(tn, t))
 			own.Settings.MatchIgnoreCase = true
 			own.FieldLines++
+		case "mapfunc":
+			sn, tn := name(), name()
+			st, _ := b.Pair(min(depth-1, 1))
+			_, tt := b.Pair(min(depth-1, 1))
+			f := b.newFunc(st, tt, true)
+			fs = append(fs, spec.F(sn, st))
+			ft = append(ft, spec.F(tn, tt))
+			own.Fields[tn] = &model.FieldCfg{Source: sn, Func: f}
+		case "mapfunc-nosource":
+			tn := name()
+			_, tt := b.Pair(min(depth-1, 1))
+			f := b.newFunc(nil, tt, false)
+			ft = append(ft, spec.F(tn, tt))
+			own.Fields[tn] = &model.FieldCfg{Func: f}
 		case "recase-exact":
 			// exact-name candidate next to a case-insensitive one: the exact one wins
 			nm := name()
@@ -659,7 +881,18 @@ func (b *Builder) fields(depth int, own *model.Method, sd *spec.TypeDecl) ([]spe
 		case "method":
 			mn := name()
 			k := []string{"int", "string", "bool"}[b.draw(3, "method-kind")]
-			sd.Methods = append(sd.Methods, spec.TypeMethod{Name: mn, Result: spec.Basic(k), Body: "return " + zeroLit(k)})
+			tm := spec.TypeMethod{Name: mn, Result: spec.Basic(k), Body: "return " + zeroLit(k)}
+			if b.AllErr && b.coin("method-fallible") {
+				id := sd.Name + "." + mn
+				tm.Err = true
+				tm.Body = fmt.Sprintf("if err := mark.Fail(%q, r); err != nil {\n\t\treturn %s, err\n\t}\n\treturn %s, nil", id, zeroLit(k), zeroLit(k))
+				if !b.aImportsMark {
+					b.aImportsMark = true
+					b.A.Imports = append(b.A.Imports, b.Prog.Module+"/mark")
+				}
+				b.label("method:fallible")
+			}
+			sd.Methods = append(sd.Methods, tm)
 			ft = append(ft, spec.F(mn, spec.Basic(k)))
 		case "unexported":
 			nm := unexportedPool[b.draw(len(unexportedPool), "uname")]
@@ -746,7 +979,21 @@ func (b *Builder) Finish() {
 		s.IgnoreUnexported = m.Settings.IgnoreUnexported
 		m.Settings = s
 	}
+	for i, m := range b.Conv.Methods {
+		m.Roles = nil
+		for _, p := range b.SC.Methods[i].Params {
+			if p.Name == "source" {
+				m.Roles = append(m.Roles, "source")
+			} else {
+				m.Roles = append(m.Roles, "context")
+			}
+		}
+	}
 	b.SC.Doc = append(b.SC.Doc, b.Conv.Settings.Lines()...)
+	if b.ctxRegex {
+		b.SC.Doc = append(b.SC.Doc, "arg:context:regex ^ctx")
+	}
+	b.SC.Doc = append(b.SC.Doc, b.extendDoc...)
 	for i, m := range b.Conv.Methods {
 		sm := b.SC.Methods[i]
 		if m.Settings.MatchIgnoreCase {
@@ -802,3 +1049,6 @@ func (b *Builder) fieldDefect() bool {
 	}
 	return false
 }
+
+// SamePkgOutput reports whether the output goes into the converter's package.
+func (o Opts) SamePkgOutput() bool { return o.SamePkg }
